@@ -521,6 +521,8 @@ def oracle(run, deep):
                 return
     bare_prepared_contexts(run)
     deep_statements(run)
+    output_option_mix(run)
+    document_histories(run)
     document_turnover(run, 3 if run.quick and not deep else 15)
     free_running(run, stmts, docs, shared, logs, base, seconds=(4 if run.quick and not deep else 25))
     what = None
@@ -656,6 +658,131 @@ def deep_statements(run):
                 return
 
 
+def output_option_mix(run):
+    """Threads whose statements were parsed with DIFFERENT output options (per-statement options of one engine, engines of
+    one factory with other options, the legacy engine): each result is finalised under its own statement's options."""
+    import yaql
+    shared, logs = shared_context()
+    base_eng = ec.engine()
+    variants = [("default", lambda t: base_eng(t)),
+                ("tuples-kept", lambda t: base_eng(t, options={"yaql.convertTuplesToLists": False})),
+                ("sets-as-lists", lambda t: base_eng(t, options={"yaql.convertSetsToLists": True})),
+                ("both", lambda t: yaql.YaqlFactory().create({"yaql.convertTuplesToLists": False, "yaql.convertSetsToLists": True})(t))]
+    texts = ["$.ll.select($)", "$.ll.select([$, $.len()])", "$.l.select(set($, 1))", "$.ll.select($.select($ + 1))",
+             "[$.l, $.ll, set(1, 2)]", "$.ld.select($.values())", "$.l.select([[$], set($)])", "dict(a => $.l, b => set(3))"]
+    docs = [c09.host_data(), dict(c09.host_data(), l=[5, 5, 1], ll=[[9], [8, 7, 6], []])]
+    stmts, base = {}, {}
+
+    def exact(v):
+        if isinstance(v, (list, tuple, set, frozenset)):
+            items = [exact(x) for x in v]
+            return (type(v).__name__, tuple(sorted(items, key=repr)) if isinstance(v, (set, frozenset)) else tuple(items))
+        if isinstance(v, dict):
+            return ("dict", tuple((repr(k), exact(x)) for k, x in v.items()))
+        return repr(v)
+
+    def job_of(key, di):
+        def job():
+            try:
+                return ("ok", exact(stmts[key].evaluate(data=docs[di], context=shared.create_child_context())))
+            except Exception as e:
+                return ("err", type(e).__name__)
+        return job
+    for vn, mk in variants:
+        for t in texts:
+            try:
+                stmts[(vn, t)] = mk(t)
+            except Exception:
+                continue
+            for di in range(len(docs)):
+                base[(vn, t, di)] = job_of((vn, t), di)()
+    keys = sorted(stmts)
+    for _ in range(run.n(40, 500)):
+        k = run.rng.choice([2, 3])
+        t0 = run.rng.choice(texts)
+        picks = []
+        for _ in range(k):
+            vn = run.rng.choice(variants)[0]
+            t = t0 if run.rng.random() < 0.6 else run.rng.choice(texts)
+            if (vn, t) in stmts:
+                picks.append(((vn, t), run.rng.randrange(len(docs))))
+        if len(picks) < 2 or len({p[0][0] for p in picks}) < 2:
+            continue
+        jobs = [job_of(key, di) for key, di in picks]
+        counts = [count_steps(j)[0] for j in jobs]
+        s = Scheduler(jobs)
+        used = s.run(random_merge(run.rng, counts))
+        run.case(("optmix", tuple(picks), tuple(used)), nontrivial=True)
+        run.count("output_option_mix_round")
+        if s.problems:
+            run.fail("violation", "an evaluation did not terminate under a schedule: %s" % s.problems[0], {"option_mix": True, "statements": picks})
+            return
+        for (key, di), res in zip(picks, s.results):
+            if res != base[key + (di,)]:
+                run.fail("violation", "statements with different output options evaluated concurrently: a result is not finalised under "
+                                      "its own statement's options (differs from the same evaluation run alone)",
+                         {"option_mix": True, "statement": key[1], "options_variant": key[0], "document": di, "all": [(k[0], k[1], d) for k, d in picks],
+                          "schedule": used, "observed": repr(res)[:400], "required": repr(base[key + (di,)])[:400]})
+                return
+
+
+def document_histories(run):
+    """One parsed statement evaluated over a HISTORY of different documents (then the same documents by several threads):
+    every evaluation gives what a freshly parsed statement gives on that document - whatever the statement object, or the
+    process, saw before."""
+    import yaql
+    shared, logs = shared_context()
+    eng = ec.engine()
+    rng = run.rng
+    texts = ["$.pairs.groupBy($[0], $[1], [$[0], $[1].sum()])", "$.pairs.groupBy($[0], $[1], $.len())", "$.pairs.groupBy($[0], $[1])",
+             "$.pairs.groupBy($[0], $[1], [$[0], $[1].len()])", "$.pairs.select($[1]).distinct().len()", "$.pairs.orderBy($[0]).thenBy($[1]).toList()",
+             "$.pairs.toDict($[0], $[1])", "$.pairs.select($[0]).sum()", "$.pairs.where($[0] > 1).select($[1]).toList()", "$.pairs.len()"]
+
+    def gen_doc():
+        n = rng.randrange(1, 8)
+        lists = rng.random() < 0.4
+        keys = [rng.choice([1, 1, 2, 3]) for _ in range(n)]
+        if rng.random() < 0.4:
+            keys.sort()
+        return {"pairs": [[k, ([rng.randrange(5) for _ in range(rng.randrange(1, 3))] if lists else rng.randrange(9))] for k in keys]}
+
+    def ev(st, d):
+        try:
+            return ("ok", repr(st.evaluate(data=d, context=shared.create_child_context())))
+        except Exception as e:
+            return ("err", type(e).__name__)
+    for text in texts:
+        stmt = eng(text)
+        hist = []
+        for step in range(run.n(12, 80)):
+            d = gen_doc()
+            hist.append(d)
+            got, want = ev(stmt, d), ev(yaql.YaqlFactory().create()(text), d)
+            run.case(("dochist", text, step), nontrivial=step > 0)
+            run.count("document_history_step")
+            if got != want:
+                run.fail("violation", "a parsed statement reused over a history of documents gives another result than a freshly parsed "
+                                      "statement on the same document",
+                         {"doc_history": True, "statement": text, "step": step, "documents": hist[-3:], "observed": repr(got)[:300],
+                          "required": repr(want)[:300]})
+                return
+        # then two threads on the same statement object with documents of the history
+        for _ in range(run.n(3, 20)):
+            picks = [rng.choice(hist) for _ in range(2)]
+            want = [ev(yaql.YaqlFactory().create()(text), d) for d in picks]
+            jobs = [(lambda d=d: ev(stmt, d)) for d in picks]
+            counts = [count_steps(j)[0] for j in jobs]
+            s = Scheduler(jobs)
+            used = s.run(random_merge(rng, counts))
+            run.count("document_history_threads")
+            if s.problems or list(s.results) != want:
+                run.fail("violation", "two threads on one parsed statement with documents of its history: a result differs from a freshly "
+                                      "parsed statement on that document",
+                         {"doc_history": True, "statement": text, "documents": picks, "schedule": used, "observed": repr(s.results)[:300],
+                          "required": repr(want)[:300]})
+                return
+
+
 def document_turnover(run, seconds):
     """Free-running threads that build a NEW input document for every evaluation (and drop it afterwards) while another
     thread keeps converting a large document: every evaluation sees its own document."""
@@ -757,9 +884,10 @@ def replay(run, data):
     shared, logs = shared_context()
     eng = ec.engine()
     docs = [c09.host_data(), dict(c09.host_data(), n=5, t="banana", l=[5, 5, 1])]
-    if d.get("deep") or d.get("turnover"):
+    if d.get("deep") or d.get("turnover") or d.get("option_mix") or d.get("doc_history"):
         probe = _Probe(run)
-        (deep_statements(probe) if d.get("deep") else document_turnover(probe, 5))
+        (deep_statements(probe) if d.get("deep") else document_turnover(probe, 5) if d.get("turnover")
+         else output_option_mix(probe) if d.get("option_mix") else document_histories(probe))
         return not probe.failed
     if d.get("bare_context") or d.get("route") == "yaql.eval":
         probe = _Probe(run)
